@@ -3,15 +3,15 @@ CONSTANTS
   TreeSet <- Trees2
   OptSet <- OptsA
   MaxBackups = 2
-  MaxDeletes = 0
+  MaxDeletes = 1
   MaxFaults = 0
-  AllowCrash = TRUE
+  AllowCrash = FALSE
   AllowEmptyLeftover = FALSE
   CombinerClearsQueueOnFailedFlush = TRUE
   Hash <- HashId
-  ReaderReportsHunks = FALSE
+  ReaderReportsHunks = TRUE
   BkRechecksLock = TRUE
-  AllowConcurrent = FALSE
+  AllowConcurrent = TRUE
   GcStopsOnUnreadableHunk = TRUE
-INVARIANTS Inv_ValidateQuietOnHealthy Inv_ValidateAdequate
+INVARIANTS Inv_QuiescentNoLoss Inv_RecordedBytes
 CHECK_DEADLOCK FALSE
